@@ -292,3 +292,159 @@ Definition expected_name_tests : list (string * list string) := [
 
 Lemma name_tests_ok : name_tests = expected_name_tests.
 Proof. vm_compute. reflexivity. Qed.
+
+
+(* ------------------------------------------------------------------ init_mix, multicomponent-diffusion branch
+
+   canonical local names as above (v00 lav, v01 dav, v02 mf12, v03 maxmix, v04 corr_disp, v06 mD, v08 i, v09 l_nmix,
+   v10 m, v11 m1); transcribed into McdMix.v (explicit part; the implicit sub-branch is in the shape only) *)
+From IPV.C11 Require Import McdMix.
+
+Definition expected_shape_mcd : list (string * list string) := [
+  ("assign dV_dcell := D_dV_dcell_1"%string, ["nz(multi_Dflag)"%string; "nz(dV_dcell)"%string]);
+  ("assign v00 := D_v00_1"%string, ["nz(multi_Dflag)"%string; "for((v08=1);(v08<=count_cells);++(v08))"%string; "(v08<count_cells)"%string]);
+  ("assign v06 := D_v06_1"%string, ["nz(multi_Dflag)"%string; "for((v08=1);(v08<=count_cells);++(v08))"%string; "(v08<count_cells)"%string]);
+  ("assign v03 := D_v03_1"%string, ["nz(multi_Dflag)"%string; "for((v08=1);(v08<=count_cells);++(v08))"%string; "(v08<count_cells)"%string; "(v03<v06)"%string]);
+  ("assign v01 := D_v01_1"%string, ["nz(multi_Dflag)"%string; "for((v08=1);(v08<=count_cells);++(v08))"%string; "(ishift!=0)"%string; "(v08<count_cells)"%string; "nz(disp[v08])"%string]);
+  ("assign v01 := D_v01_2"%string, ["nz(multi_Dflag)"%string; "for((v08=1);(v08<=count_cells);++(v08))"%string; "(ishift!=0)"%string; "(v08<count_cells)"%string; "nz(disp[v08+1])"%string]);
+  ("assign v11[v08] := D_v11_v08_1"%string, ["nz(multi_Dflag)"%string; "for((v08=1);(v08<=count_cells);++(v08))"%string; "(ishift!=0)"%string; "(v08<count_cells)"%string; "nz(v01)"%string]);
+  ("assign v01 := D_v01_3"%string, ["nz(multi_Dflag)"%string; "for((v08=1);(v08<=count_cells);++(v08))"%string; "(ishift!=0)"%string; "(1<v08)"%string; "nz(disp[v08])"%string]);
+  ("assign v01 := D_v01_4"%string, ["nz(multi_Dflag)"%string; "for((v08=1);(v08<=count_cells);++(v08))"%string; "(ishift!=0)"%string; "(1<v08)"%string; "nz(disp[v08-1])"%string]);
+  ("assign v10[v08] := D_v10_v08_1"%string, ["nz(multi_Dflag)"%string; "for((v08=1);(v08<=count_cells);++(v08))"%string; "(ishift!=0)"%string; "(1<v08)"%string; "nz(v01)"%string]);
+  ("assign v02 := D_v02_1"%string, ["nz(multi_Dflag)"%string; "for((v08=1);(v08<=count_cells);++(v08))"%string; "(ishift!=0)"%string]);
+  ("assign v03 := D_v03_2"%string, ["nz(multi_Dflag)"%string; "for((v08=1);(v08<=count_cells);++(v08))"%string; "(ishift!=0)"%string; "(v03<v02)"%string]);
+  ("assign v06 := D_v06_2"%string, ["nz(multi_Dflag)"%string; "(bcon_first==1)"%string]);
+  ("assign v03 := D_v03_3"%string, ["nz(multi_Dflag)"%string; "(bcon_first==1)"%string; "(v03<v06)"%string]);
+  ("assign v10[1] := D_v10_1_1"%string, ["nz(multi_Dflag)"%string; "(bcon_first==1)"%string; "(ishift!=0)"%string]);
+  ("assign v02 := D_v02_2"%string, ["nz(multi_Dflag)"%string; "(bcon_first==1)"%string; "(ishift!=0)"%string]);
+  ("assign v03 := D_v03_4"%string, ["nz(multi_Dflag)"%string; "(bcon_first==1)"%string; "(ishift!=0)"%string; "(v03<v02)"%string]);
+  ("assign v06 := D_v06_3"%string, ["nz(multi_Dflag)"%string; "(bcon_last==1)"%string]);
+  ("assign v03 := D_v03_5"%string, ["nz(multi_Dflag)"%string; "(bcon_last==1)"%string; "(v03<v06)"%string]);
+  ("assign v11[count_cells] := D_v11_count_cells_1"%string, ["nz(multi_Dflag)"%string; "(bcon_last==1)"%string; "(ishift!=0)"%string]);
+  ("assign v02 := D_v02_3"%string, ["nz(multi_Dflag)"%string; "(bcon_last==1)"%string; "(ishift!=0)"%string]);
+  ("assign v03 := D_v03_6"%string, ["nz(multi_Dflag)"%string; "(bcon_last==1)"%string; "(ishift!=0)"%string; "(v03<v02)"%string]);
+  ("assign v09 := D_v09_1"%string, ["nz(multi_Dflag)"%string; "(v03==0)"%string]);
+  ("assign v09 := D_v09_2"%string, ["nz(multi_Dflag)"%string; "(v03==0)"%string; "((1<mcd_substeps)&&(0<stag_data.count_stag))"%string]);
+  ("assign v09 := D_v09_3"%string, ["nz(multi_Dflag)"%string; "!(v03==0)"%string; "nz(implicit)"%string]);
+  ("assign v09 := D_v09_4"%string, ["nz(multi_Dflag)"%string; "!(v03==0)"%string; "nz(implicit)"%string; "(max_mixf<v03)"%string]);
+  ("assign v09 := D_v09_5"%string, ["nz(multi_Dflag)"%string; "!(v03==0)"%string; "nz(implicit)"%string; "((ishift!=0)&&((bcon_first==1)||(bcon_last==1)))"%string; "(v09<2)"%string]);
+  ("assign v09 := D_v09_6"%string, ["nz(multi_Dflag)"%string; "!(v03==0)"%string; "nz(implicit)"%string; "(1<mcd_substeps)"%string]);
+  ("alloc v10"%string, ["nz(multi_Dflag)"%string; "!(v03==0)"%string; "!nz(implicit)"%string; "(2147483647<((9/4*v03)+1))"%string]);
+  ("alloc v11"%string, ["nz(multi_Dflag)"%string; "!(v03==0)"%string; "!nz(implicit)"%string; "(2147483647<((9/4*v03)+1))"%string]);
+  ("call snprintf"%string, ["nz(multi_Dflag)"%string; "!(v03==0)"%string; "!nz(implicit)"%string; "(2147483647<((9/4*v03)+1))"%string]);
+  ("call error_msg"%string, ["nz(multi_Dflag)"%string; "!(v03==0)"%string; "!nz(implicit)"%string; "(2147483647<((9/4*v03)+1))"%string]);
+  ("assign v09 := D_v09_7"%string, ["nz(multi_Dflag)"%string; "!(v03==0)"%string; "!nz(implicit)"%string; "((bcon_first==1)||(bcon_last==1))"%string]);
+  ("assign v09 := D_v09_8"%string, ["nz(multi_Dflag)"%string; "!(v03==0)"%string; "!nz(implicit)"%string; "!((bcon_first==1)||(bcon_last==1))"%string]);
+  ("assign v09 := D_v09_9"%string, ["nz(multi_Dflag)"%string; "!(v03==0)"%string; "!nz(implicit)"%string; "((ishift!=0)&&((bcon_first==1)||(bcon_last==1)))"%string; "(v09<2)"%string]);
+  ("assign v09 := D_v09_10"%string, ["nz(multi_Dflag)"%string; "!(v03==0)"%string; "!nz(implicit)"%string; "(1<mcd_substeps)"%string]);
+  ("assign v10[v08] := D_v10_v08_2"%string, ["nz(multi_Dflag)"%string; "for((v08=1);(v08<=count_cells);++(v08))"%string]);
+  ("assign v11[v08] := D_v11_v08_2"%string, ["nz(multi_Dflag)"%string; "for((v08=1);(v08<=count_cells);++(v08))"%string]);
+  ("call v13.Set_n_user(v08)"%string, ["nz(multi_Dflag)"%string; "for((v08=1);(v08<=count_cells);++(v08))"%string]);
+  ("call v13.Set_n_user_end(v08)"%string, ["nz(multi_Dflag)"%string; "for((v08=1);(v08<=count_cells);++(v08))"%string]);
+  ("call v13.Add(v08-1,D_v13_Add_arg1_1)"%string, ["nz(multi_Dflag)"%string; "for((v08=1);(v08<=count_cells);++(v08))"%string]);
+  ("call v13.Add(v08+1,D_v13_Add_arg1_2)"%string, ["nz(multi_Dflag)"%string; "for((v08=1);(v08<=count_cells);++(v08))"%string]);
+  ("call v13.Add(v08,D_v13_Add_arg1_3)"%string, ["nz(multi_Dflag)"%string; "for((v08=1);(v08<=count_cells);++(v08))"%string]);
+  ("store Dispersion_mix_map[v08] := v13"%string, ["nz(multi_Dflag)"%string; "for((v08=1);(v08<=count_cells);++(v08))"%string]);
+  ("alloc v10"%string, ["nz(multi_Dflag)"%string]);
+  ("alloc v11"%string, ["nz(multi_Dflag)"%string]);
+  ("return D_return_1"%string, ["nz(multi_Dflag)"%string])
+].
+
+Lemma shape_mcd_ok : shape_mcd = expected_shape_mcd.
+Proof. vm_compute. reflexivity. Qed.
+
+(* lav = (length[i+1] + length[i]) / 2; mD = diffc_max * timest / (lav * lav) *)
+Lemma gen_mcd_fourier : forall dmax t a b,
+  fourier (dmax * t) a b ==
+  (let lv := D_v00_1 (env [("length[v08+1]"%string, len b); ("length[v08]"%string, len a)]) in
+   D_v06_1 (env [("diffc_max"%string, dmax); ("timest"%string, t); ("v00"%string, lv)])).
+Proof. intros. unfold fourier, lav, D_v00_1, D_v06_1. leaf. qsem. Qed.
+
+(* constant boundaries: mD = 2 * diffc_max * timest / (length * length) *)
+Lemma gen_mcd_bnd_fourier : forall dmax t c,
+  bnd_fourier (dmax * t) c == D_v06_2 (env [("diffc_max"%string, dmax); ("timest"%string, t); ("length[1]"%string, len c)]) /\
+  bnd_fourier (dmax * t) c == D_v06_3 (env [("diffc_max"%string, dmax); ("timest"%string, t); ("length[count_cells]"%string, len c)]).
+Proof. intros. unfold bnd_fourier, D_v06_2, D_v06_3. leaf. split; qsem. Qed.
+
+(* dispersive factors of the MCD branch: dav as in the other branch; if (dav) m = 2 * corr_disp / dav; boundary 2 * disp / length * corr_disp *)
+Lemma gen_mcd_disp : forall corr dav cur other,
+  snd (mcd_disp corr dav cur other) ==
+    (let E := fun d => env [("v01"%string, d); ("length[v08]"%string, len cur); ("disp[v08]"%string, disp cur);
+                             ("length[v08+1]"%string, len other); ("disp[v08+1]"%string, disp other)] in
+     let d1 := if Qnz (disp cur) then D_v01_1 (E dav) else dav in
+     if Qnz (disp other) then D_v01_2 (E d1) else d1) /\
+  snd (mcd_disp corr dav cur other) ==
+    (let E := fun d => env [("v01"%string, d); ("length[v08]"%string, len cur); ("disp[v08]"%string, disp cur);
+                             ("length[v08-1]"%string, len other); ("disp[v08-1]"%string, disp other)] in
+     let d1 := if Qnz (disp cur) then D_v01_3 (E dav) else dav in
+     if Qnz (disp other) then D_v01_4 (E d1) else d1) /\
+  fst (mcd_disp corr dav cur other) ==
+    (let dav' := snd (mcd_disp corr dav cur other) in
+     if Qnz dav' then D_v11_v08_1 (env [("v04"%string, corr); ("v01"%string, dav')]) else 0) /\
+  fst (mcd_disp corr dav cur other) ==
+    (let dav' := snd (mcd_disp corr dav cur other) in
+     if Qnz dav' then D_v10_v08_1 (env [("v04"%string, corr); ("v01"%string, dav')]) else 0).
+Proof.
+  intros. unfold mcd_disp, dav_upd, D_v01_1, D_v01_2, D_v01_3, D_v01_4, D_v11_v08_1, D_v10_v08_1. cbv [fst snd]. leaf.
+  split; [|split; [|split]].
+  - destruct (Qnz (disp cur)), (Qnz (disp other)); qsem.
+  - destruct (Qnz (disp cur)), (Qnz (disp other)); qsem.
+  - match goal with |- context [Qnz ?d] => destruct (Qnz d) end; qsem.
+  - match goal with |- context [Qnz ?d] => destruct (Qnz d) end; qsem.
+Qed.
+
+Lemma gen_mcd_bnd_disp : forall corr c,
+  bnd_disp corr c == D_v10_1_1 (env [("v04"%string, corr); ("disp[1]"%string, disp c); ("length[1]"%string, len c)]) /\
+  bnd_disp corr c == D_v11_count_cells_1 (env [("v04"%string, corr); ("disp[count_cells]"%string, disp c); ("length[count_cells]"%string, len c)]).
+Proof. intros. unfold bnd_disp, D_v10_1_1, D_v11_count_cells_1. leaf. split; qsem. Qed.
+
+(* maxmix is raised to mD / mf12 exactly where the model applies upmax *)
+Lemma gen_mcd_maxmix : forall mx v m m1,
+  upmax mx v == (if Qltb mx v then D_v03_1 (env [("v06"%string, v)]) else mx) /\
+  upmax mx v == (if Qltb mx v then D_v03_3 (env [("v06"%string, v)]) else mx) /\
+  upmax mx v == (if Qltb mx v then D_v03_5 (env [("v06"%string, v)]) else mx) /\
+  upmax mx (m + m1) == (let mf := D_v02_1 (env [("v10[v08]"%string, m); ("v11[v08]"%string, m1)]) in
+                        if Qltb mx mf then D_v03_2 (env [("v02"%string, mf)]) else mx) /\
+  upmax mx (sum2 (m, m1)) == (let mf := D_v02_2 (env [("v10[1]"%string, m); ("v11[1]"%string, m1)]) in
+                        if Qltb mx mf then D_v03_4 (env [("v02"%string, mf)]) else mx) /\
+  upmax mx (sum2 (m, m1)) == (let mf := D_v02_3 (env [("v10[count_cells]"%string, m); ("v11[count_cells]"%string, m1)]) in
+                        if Qltb mx mf then D_v03_6 (env [("v02"%string, mf)]) else mx).
+Proof.
+  intros. cbv zeta.
+  split; [|split; [|split; [|split; [|split]]]]; apply upmax_compat;
+    unfold sum2, D_v03_1, D_v03_2, D_v03_3, D_v03_4, D_v03_5, D_v03_6, D_v02_1, D_v02_2, D_v02_3; leaf; qsem.
+Qed.
+
+(* explicit branch: l_nmix = 1 + floor(2.25 maxmix) with a constant boundary, else 1 + floor(1.5 maxmix); at least 2 for
+   advection with a constant boundary; ceil(l_nmix * mcd_substeps) when mcd_substeps > 1; 0 when maxmix == 0 *)
+Lemma gen_mcd_nmix : forall c mx s,
+  inject_Z (mcd_nmix c mx s) ==
+  (if Qeq_bool mx 0 then D_v09_1 (env [])
+   else let cb := Z.eqb (bcf c) 1 || Z.eqb (bcl c) 1 in
+        let k := if cb then D_v09_7 (env [("v03"%string, mx)]) else D_v09_8 (env [("v03"%string, mx)]) in
+        let k' := if adv c && cb && Qltb k (2 # 1) then D_v09_9 (env []) else k in
+        if Qltb 1 s then D_v09_10 (env [("v09"%string, k'); ("mcd_substeps"%string, s)]) else k').
+Proof.
+  intros. unfold mcd_nmix. cbv zeta.
+  destruct (Qeq_bool mx 0); [unfold D_v09_1; leaf; qsem|].
+  set (cb := Z.eqb (bcf c) 1 || Z.eqb (bcl c) 1).
+  set (f := if cb then 9 # 4 else 3 # 2).
+  assert (K : (if cb then D_v09_7 (env [("v03"%string, mx)]) else D_v09_8 (env [("v03"%string, mx)]))
+              == inject_Z (1 + Qfloor (f * mx))).
+  { unfold f. destruct cb; unfold D_v09_7, D_v09_8; leaf; rewrite inject_Z_plus;
+      match goal with
+      | |- context [ Qfloor ?t ] => first [ setoid_replace t with ((9 # 4) * mx) by ring | setoid_replace t with ((3 # 2) * mx) by ring | idtac ]
+      end; qsem. }
+  rewrite (Qltb_compat_l _ _ (2 # 1) K), Qltb_inject_Z.
+  set (kz := (1 + Qfloor (f * mx))%Z) in *.
+  destruct (adv c && cb && Z.ltb kz 2).
+  - assert (K2 : D_v09_9 (env []) == inject_Z 2) by (unfold D_v09_9; leaf; qsem).
+    destruct (Qltb 1 s).
+    + unfold D_v09_10. leaf.
+      match goal with |- context [ Qceiling ?t ] => setoid_replace t with (inject_Z 2 * s) by (rewrite K2; ring) end. reflexivity.
+    + symmetry. exact K2.
+  - destruct (Qltb 1 s).
+    + unfold D_v09_10. leaf.
+      match goal with |- context [ Qceiling ?t ] => setoid_replace t with (inject_Z kz * s) by (rewrite K; ring) end. reflexivity.
+    + symmetry. exact K.
+Qed.
